@@ -122,6 +122,9 @@ func RunC02(c *Ctx, r *Report) {
 		r.Func(c.FuncName(fn))
 	}
 	c.unprotectGateRule(r, prefix+"unprotect-gate", a)
+	// the checksum compared has the negotiated transform's length: the descriptor a received transform resolves to
+	// is the registered one with the RFC's output length (a descriptor with output length 0 verifies nothing)
+	c.registryRules(r, prefix+"registry.", "security/integ")
 	isDecryptInvoke := func(call *ssa.Call) bool {
 		if !call.Call.IsInvoke() || call.Call.Method.Name() != "Decrypt" {
 			return false
